@@ -64,6 +64,8 @@ def _job(args):
     t0 = time.time()
     try:
         random.seed(seed)
+        import warnings
+        warnings.simplefilter('ignore')
         sys.path.insert(0, VERIF)
         os.environ['VF_STUB_README'] = '1' if stub_readme else '0'
         mod = importlib.import_module(modname)
